@@ -95,6 +95,13 @@ Example C11_leading_tab_in_container_refuted :
   = Ok [60; 117; 108; 62; 10; 60; 108; 105; 62; 60; 112; 114; 101; 62; 60; 99; 111; 100; 101; 62; 32; 32; 84; 97; 98; 10; 60; 47; 99; 111; 100; 101; 62; 60; 47; 112; 114; 101; 62; 10; 60; 47; 108; 105; 62; 10; 60; 47; 117; 108; 62; 10]%Z.
 Proof. vm_compute. reflexivity. Qed.
 
+(* KNOWN FINDING whitespace-only-line-in-item-code, reproduced by the model: the line of six spaces inside the fenced code of the
+   item ('- ```' / '  a' / '      ' / '  b' / '  ```') comes out empty instead of keeping the four spaces beyond the item indentation *)
+Example C11_whitespace_only_line_in_item_code_refuted :
+  core_html true false [45; 32; 96; 96; 96; 10; 32; 32; 97; 10; 32; 32; 32; 32; 32; 32; 10; 32; 32; 98; 10; 32; 32; 96; 96; 96; 10]%Z
+  = Ok [60; 117; 108; 62; 10; 60; 108; 105; 62; 60; 112; 114; 101; 62; 60; 99; 111; 100; 101; 62; 97; 10; 10; 98; 10; 60; 47; 99; 111; 100; 101; 62; 60; 47; 112; 114; 101; 62; 10; 60; 47; 108; 105; 62; 10; 60; 47; 117; 108; 62; 10]%Z.
+Proof. vm_compute. reflexivity. Qed.
+
 Print Assumptions C11_code_piece_unescapes_to_raw.
 Print Assumptions C11_codespan_rule.
 Print Assumptions C11_fenced_raw_is_a_source_slice.
